@@ -159,9 +159,15 @@ func Walk(v Visitor, node ast.Node) {
 
 	case *ast.FuncType:
 		for _, param := range n.Parameters {
+			if param.Ident != nil {
+				Walk(v, param.Ident)
+			}
 			Walk(v, param.Type)
 		}
 		for _, res := range n.Result {
+			if res.Ident != nil {
+				Walk(v, res.Ident)
+			}
 			Walk(v, res.Type)
 		}
 
@@ -206,6 +212,9 @@ func Walk(v Visitor, node ast.Node) {
 		}
 
 	case *ast.Select:
+		if n.LeadingText != nil {
+			Walk(v, n.LeadingText)
+		}
 		for _, c := range n.Cases {
 			Walk(v, c)
 		}
@@ -259,6 +268,9 @@ func Walk(v Visitor, node ast.Node) {
 	case *ast.Switch:
 		Walk(v, n.Init)
 		Walk(v, n.Expr)
+		if n.LeadingText != nil {
+			Walk(v, n.LeadingText)
+		}
 		for _, c := range n.Cases {
 			Walk(v, c)
 		}
@@ -270,6 +282,7 @@ func Walk(v Visitor, node ast.Node) {
 
 	case *ast.TypeAssertion:
 		Walk(v, n.Expr)
+		Walk(v, n.Type)
 
 	case *ast.TypeDeclaration:
 		Walk(v, n.Ident)
@@ -279,6 +292,9 @@ func Walk(v Visitor, node ast.Node) {
 		Walk(v, n.Init)
 		if n.Assignment != nil {
 			Walk(v, n.Assignment)
+		}
+		if n.LeadingText != nil {
+			Walk(v, n.LeadingText)
 		}
 		for _, c := range n.Cases {
 			Walk(v, c)
@@ -308,8 +324,22 @@ func Walk(v Visitor, node ast.Node) {
 			Walk(v, value)
 		}
 
-	case *ast.Extends:
 	case *ast.Import:
+		if n.Ident != nil {
+			Walk(v, n.Ident)
+		}
+		for _, ident := range n.For {
+			Walk(v, ident)
+		}
+		// Visiting the expanded tree is done by the Visit function if
+		// necessary.
+
+	case *ast.Raw:
+		if n.Text != nil {
+			Walk(v, n.Text)
+		}
+
+	case *ast.Extends:
 	case *ast.Render:
 	// Nothing to do, visiting the expanded tree is done
 	// by the Visit function if necessary.
@@ -318,7 +348,6 @@ func Walk(v Visitor, node ast.Node) {
 		*ast.Identifier,
 		*ast.Comment,
 		*ast.Text,
-		*ast.Raw,
 		*ast.Placeholder,
 		*ast.Interface,
 		*ast.Fallthrough:
